@@ -5,6 +5,8 @@ package main
 import (
 	"fmt"
 	"go/ast"
+
+	"golang.org/x/tools/go/ssa"
 	"go/token"
 	"go/types"
 	"strconv"
@@ -199,6 +201,19 @@ func (c *Ctx) tr(x ast.Expr) Val {
 		}
 		c.fail(x, "cannot slice %s", b.T)
 	case *ast.SelectorExpr:
+		if id, ok := x.X.(*ast.Ident); ok && c.E != nil && c.E.fn != nil {
+			if _, isVar := c.Vars[id.Name]; !isVar {
+				if _, isLocal := c.E.lookupLocal(c, id.Name); !isLocal {
+					for _, p := range c.E.W.Prog.AllPackages() {
+						if p.Pkg.Name() == id.Name {
+							if g, ok := p.Members[x.Sel.Name].(*ssa.Global); ok && c.St != nil {
+								return c.E.loadGlobal(c.St, g)
+							}
+						}
+					}
+				}
+			}
+		}
 		// a.b.c: intermediate struct-valued fields are addressed, not loaded
 		saved := c.lazyStruct
 		_, chained := x.X.(*ast.SelectorExpr)
@@ -549,7 +564,16 @@ func (c *Ctx) trCall(x *ast.CallExpr) Val {
 			if !ok {
 				c.fail(x, "unchanged takes string literals")
 			}
-			for _, ks := range c.E.resolveHeapItem(lit) {
+			var kss [][2]string
+			if strings.HasPrefix(lit, "map:") {
+				kss = c.E.resolveMapItem(strings.TrimPrefix(lit, "map:"))
+			} else {
+				kss = c.E.resolveHeapItem(lit)
+			}
+			for _, ks := range kss {
+				if ks[0] == "map.card" {
+					continue // shared by all maps
+				}
 				cs = append(cs, eq(c.E.heapKey(c.St, ks[0], ks[1]), c.E.heapKey(c.Old.St, ks[0], ks[1])))
 			}
 		}
